@@ -90,6 +90,8 @@ def scenario(rng, ticks):
                     res.append(C("RGood", {"lds": lambda: sysgen.listener(n, st), "rds": lambda: sysgen.route_config(n, st),
                                            "cds": lambda: sysgen.cluster(n, st), "eds": lambda: sysgen.endpoints(n, st)}[rt]()))
                 ops.append({"op": "resp", "rt": rt, "version": "v%d" % g.version, "nonce": "n%d" % g.version, "resources": res})
+        if rng.random() < 0.5:
+            ops.append({"op": "dump"})      # Dump() renders every cached resource shortly before the sweep: not a lookup
         ops.append({"op": "await_sweep", "ms": k})
         evicted = [(rt, n) for (rt, n), idle in plan.items() if idle and not (rt == "lds" and n == "virtualInbound")]
         # the control plane answers the unsubscription: a response of a type that may have no names left is still acknowledged
